@@ -274,6 +274,26 @@ def construct_and_observe(cls_name, subset, seed_value, stats=None):
                 want_sub = (vals["in_prefix"] if "in_prefix" in subset else "") + "/+/+/0/+/+"
                 if not subs or subs[-1][0] != want_sub:
                     raise Violation("option_ignored.in_prefix", case, f"{cls_name}: subscribed {subs[-1:]} expected {want_sub!r}")
+                # the inbound prefix is matched exactly: our topics are taken, a neighbour's (nested below ours,
+                # above ours, a sibling with a longer name, the outbound prefix) are not
+                pre = vals["in_prefix"] if "in_prefix" in subset else ""
+                probes = [(f"{pre}/1/255/3/0/6", True), (f"{pre}/garage/1/255/3/0/6", False), (f"{pre}/a/b/1/255/3/0/6", False),
+                          (f"x/{pre}/1/255/3/0/6", False), (f"{pre}x/1/255/3/0/6", False)]
+                taken = []
+                real_logic = gw.logic
+                gw.logic = lambda data: (taken.append(data), real_logic(data))[1]  # sync: queued and pumped; asyncio: run at once
+                try:
+                    for topic, ours in probes:
+                        del taken[:]
+                        try:
+                            tr.recv(topic, "0", 0)
+                            pump_all(gw, sent)
+                        except Exception as exc:  # pylint: disable=broad-except
+                            raise Violation(f"recv_raises.{type(exc).__name__}", case, f"{cls_name}: recv({topic!r}) raised {exc!r}") from exc
+                        if (len(taken) == 1) != ours:
+                            raise Violation("option_ignored.in_prefix", case, f"{cls_name} with in_prefix {pre!r}: topic {topic!r} {'was not taken' if ours else 'of somebody else was taken as ours'} (handled {taken})")
+                finally:
+                    gw.logic = real_logic
             else:
                 observe_dial(cls_name, gw, subset, vals, case)
         finally:
